@@ -73,7 +73,30 @@ def main(pid, tier, seed, replay):
                 chk.finding(None, "parallelised RAM query violates the read/write-disjointness the confluence theorem needs: " + b,
                             P.replay_obj(p, None, {"validator": "par_marks_ok", "ram": out[:4000]}))
         stats["parallel_marks_validated"] = marks
-        # compiled executables at two thread counts for a few programs
+        # volume family: relations of 10^4..10^5 tuples (many B-tree splits, several chunks per worker), python-computed
+        # expectation; every thread count and perturbation seed, one compiled executable at -j8
+        import volume as V
+        nvol = 5 if chk.tier == "quick" else 60
+        vr = chk.rng.fork("volume")
+        cases = [V.make_case(vr.fork("v%d" % i)) for i in range(nvol)]
+        runs = []
+        for i, c in enumerate(cases):
+            for j in (1, 2, 4, 16):
+                runs.append((i, "interpreter -j%d" % j, dict(jobs=j)))
+            for s in (1, 2):
+                runs.append((i, "interpreter -j8 perturb=%d" % s, dict(jobs=8, env={"SOUFFLE_VERIF_PERTURB": str(s)})))
+            if i == 0:
+                runs.append((i, "compiled -j8", dict(jobs=8, compiled=True)))
+
+        def one(k):
+            i, name, kw = runs[k]
+            return V.run_case(cases[i], C.fresh_dir("c03vol", "%d_%d" % (i, k)), **kw)
+        res = C.parallel_map(one, range(len(runs)), workers=4)
+        for (i, name, kw), r in zip(runs, res):
+            if r is not None:
+                chk.finding(None, "volume program under '%s': %s" % (name, r), {"program": cases[i]["program"], "facts": {"e": cases[i]["facts"]["e"][:20000]}, "config": name})
+        stats["volume_runs"] = len(runs)
+        stats["volume_tuples"] = [c["tuples"] for c in cases]
     def configs(p):
         return configs_q(p)
     return P.standard_check(pid, LEVEL, tier, seed, configs, 24, 400, features,
